@@ -18,12 +18,15 @@ Oracle (implementation only, run on *every* case):
 Keys:  <Class>.<method>:<aspect>:<input class>
 """
 import math
+import sys
 import numpy as np
 import scipy
 import scipy.interpolate
 from harness.core import import_cuqi, quiet, q, qv, qm, pv, pm, close, vclose, mclose
 
 TOL = 1e-9
+if hasattr(sys, "set_int_max_str_digits"):
+    sys.set_int_max_str_digits(0)      # exact levels on re-scaled time axes are rationals with thousands of digits
 
 
 class SolverRaised(Exception):
@@ -210,6 +213,73 @@ def make_om(rng, kind, nrows):
     raise ValueError(kind)
 
 
+SIGMAS = [2.0 ** -40, 1e-12, 2.0 ** -30, 1e-9, 2.0 ** -20, 1e-6, 2.0 ** -10, 2.0 ** 10, 1e6, 2.0 ** 20]
+
+
+def scale_time(F, ts, sigma):
+    """the same discrete recurrence on a time axis scaled by sigma: t' = sigma t, A' = A/sigma, b' = b/sigma (dt'.A' = dt.A)"""
+    G = dict(F)
+    for k, pw in (("A0", 1), ("A1", 2), ("E", 1), ("b0", 1), ("b1", 2), ("B", 1), ("c1", 1)):
+        if G.get(k) is not None:
+            G[k] = G[k] / sigma ** pw
+    return G, np.asarray(ts, dtype=float) * sigma
+
+
+DT_VARIANTS = ["int-all", "bool-ic", "int-param-ic", "f32-data", "f32-all", "int-ts", "list-ts-list-p", "0d-free"]
+
+
+def dtype_time_case(rng, n, variant):
+    """integer-valued data so that a cast to int/bool/float32 loses nothing: (F, npar, p, ts)"""
+    F = {"n": n, "A0": laplace(n), "b0": np.array([float(rng.randint(-2, 2)) for _ in range(n)])}
+    p = np.array([float(rng.randint(-2, 3)) for _ in range(n)])
+    if not np.any(p):
+        p[0] = 1.0
+    if variant == "bool-ic":
+        c0 = np.array([float(rng.random() < 0.5) for _ in range(n)]); c0[0] = 1.0
+        F.update(c0=c0, B=np.eye(n))
+    elif variant == "int-param-ic":
+        F.update(C=np.eye(n))
+    else:
+        F.update(c0=np.array([float(rng.randint(-3, 3)) for _ in range(n)]), C=np.eye(n))
+    nt = rng.choice([2, 3]) if variant == "f32-all" else rng.choice([2, 3, 4, 5])
+    if variant == "int-ts":
+        F["A0"] = laplace(n) / 4.0
+        ts = np.cumsum([0] + [rng.choice([1, 2]) for _ in range(nt - 1)]).astype(float)
+    else:
+        ts = np.cumsum([0.0] + [rng.choice([0.125, 0.25, 0.375]) for _ in range(nt - 1)])
+    return F, n, p, ts
+
+
+def dtype_views(variant, F, p, ts):
+    """(form(par, t), parameter as passed, time grid as passed) with the dtypes of the variant; same numbers"""
+    def cast(A, b, ic, par):
+        if variant == "int-all":
+            return A.astype(np.int64), b.astype(np.int32), ic.astype(np.int64)
+        if variant == "bool-ic":
+            return A.astype(np.int64), b, ic.astype(bool)
+        if variant == "int-param-ic":
+            return A, b.astype(int), par                    # the parameter object itself is the initial condition
+        if variant == "f32-data":
+            return A, b.astype(np.float32), ic.astype(np.float32)
+        if variant == "f32-all":
+            return A.astype(np.float32), b.astype(np.float32), ic.astype(np.float32)
+        if variant == "list-ts-list-p":
+            return A, b, [float(x) for x in ic]     # (a python-list source with a python-list time grid is refused loudly: float * list)
+        return A, b, ic
+
+    def form(par, t):
+        A, b, ic = fam_eval(F, par, float(t))
+        return cast(A, b, ic, par)
+    pv_ = {"int-all": p.astype(np.int64), "int-param-ic": p.astype(np.int64), "f32-data": p.astype(np.float32), "f32-all": p.astype(np.float32),
+           "list-ts-list-p": [float(x) for x in p]}.get(variant, p.copy())
+    tv = {"f32-all": ts.astype(np.float32), "int-ts": ts.astype(np.int32), "list-ts-list-p": [float(x) for x in ts]}.get(variant, ts.copy())
+    return form, pv_, tv
+
+
+def snap(*objs):
+    return [o.tobytes() if isinstance(o, np.ndarray) else repr(o) for o in objs]
+
+
 TOL_GRIDS = [("big", 2.5e5, 1.0, 0.5), ("huge", 1e8, 1.0, 1e-3), ("tiny", 0.0, 1e-9, 3e-10), ("big-fine", 4.0e6, 0.25, 0.125)]
 
 
@@ -355,6 +425,11 @@ def check_time_solve(ctx, cuqi, rng, ncases, bump):
             method = METHODS[(c // len(TIME_FLAVOURS)) % 2]
         gridkind = rng.choice(["uniform", "nonuniform", "nonuniform", "wild"]) if flavour != "general" or method != "backward_euler" else rng.choice(["uniform", "nonuniform"])
         nt = rng.choice([1, 2, 2, 3, 4, 5, 6, 8]) if ctx.tier != "thorough" else rng.choice([1, 2, 3, 4, 5, 6, 8, 12, 16])
+        nsig = 2 * len(TIME_FLAVOURS)
+        if c < nsig:              # always present: every flavour, both methods, on a re-scaled time axis
+            nt = rng.choice([3, 4, 5]); gridkind = ["uniform", "nonuniform"][c % 2]
+            if n == 1:
+                n = 2; F, npar = gen_time_family(rng, n, flavour)
         ts = gen_times(rng, nt, gridkind)
         if flavour == "op-p":
             p = np.array([dy(rng, 0.25, 3, 4) for _ in range(npar)])
@@ -378,7 +453,18 @@ def check_time_solve(ctx, cuqi, rng, ncases, bump):
                 ok = all(np.linalg.cond(np.eye(n) - (ts[k] - ts[k - 1]) * fam_eval(F, p, ts[k])[0]) <= 1e4 for k in range(1, nt))
                 if not ok:
                     continue
-        cases.append(dict(n=n, flavour=flavour, F=F, p=p, method=method, ts=ts, skind=skind, gridkind=gridkind))
+        sigma = SIGMAS[c % len(SIGMAS)] if c < nsig else (rng.choice(SIGMAS) if rng.random() < 0.2 else 1.0)
+        if sigma != 1.0:
+            F, ts = scale_time(F, ts, sigma)
+            gridkind = gridkind + f":x{sigma:.0e}"
+        variant = None
+        if nsig <= c < nsig + 2 * len(DT_VARIANTS) or (c >= nsig + 2 * len(DT_VARIANTS) and rng.random() < 0.12):
+            variant = DT_VARIANTS[(c - nsig) % len(DT_VARIANTS)] if c < nsig + 2 * len(DT_VARIANTS) else rng.choice(DT_VARIANTS)
+            method = "forward_euler" if variant == "f32-all" else METHODS[((c - nsig) // len(DT_VARIANTS)) % 2] if c < nsig + 2 * len(DT_VARIANTS) else rng.choice(METHODS)
+            n = max(n, 2)
+            F, npar, p, ts = dtype_time_case(rng, n, variant)
+            skind = rng.choice(["default", "plain", "t2"]); flavour = "dtype-" + variant; gridkind = "dtype"
+        cases.append(dict(n=n, flavour=flavour, F=F, p=p, method=method, ts=ts, skind=skind, gridkind=gridkind, variant=variant))
         _, _, dk = make_solver(skind)
         lines.append(f"time {n} {method if method else '-'} {dk} {qv(ts)} {fam_tokens(F)} {qv(p)}")
     outs = ctx.lean.drive(lines)
@@ -392,18 +478,27 @@ def check_time_solve(ctx, cuqi, rng, ncases, bump):
         key = f"TimeDependentLinearPDE.solve:{mclass}:{cs['flavour']}"
         calls = []
 
-        def form(par, t, F=F, calls=calls):
+        if cs.get("variant"):
+            vform, p_in, ts_in = dtype_views(cs["variant"], F, p, ts)
+        else:
+            vform, p_in, ts_in = (lambda par, t, F=F: fam_eval(F, par, t)), p.copy(), ts.copy()
+
+        def form(par, t, calls=calls, vform=vform):
             calls.append(float(t))
-            return fam_eval(F, par, t)
+            return vform(par, t)
         solver, kwargs, _ = make_solver(skind)
         impl_err, u, info = None, None, None
+        before = snap(p_in, ts_in)
         try:
             with quiet():
-                pde = TimeDependentLinearPDE(form, ts, method=method, linalg_solve=solver, linalg_solve_kwargs=kwargs)
-                pde.assemble(p)
+                pde = TimeDependentLinearPDE(form, ts_in, method=method, linalg_solve=solver, linalg_solve_kwargs=kwargs)
+                pde.assemble(p_in)
                 u, info = pde.solve()
         except Exception as e:  # noqa
             impl_err = errname(e)
+        if snap(p_in, ts_in) != before:
+            ctx.fail(key + ":caller-array-modified", desc, "parameter and time grid passed by the caller unchanged", "modified in place",
+                     "solve() modifies an array owned by the caller")
         if impl_err:
             bump("errors", "time:" + impl_err)
         # ---- oracle on the implementation's result
@@ -489,13 +584,27 @@ def check_steady_solve(ctx, cuqi, rng, ncases, bump):
             F.update(A0=A0, b0=dyv(rng, n), B=dym(rng, n, npar))
             gen_p = lambda: dyv(rng, npar)
         skind = rng.choice(SOLVER_KINDS)
+        svariant = None
+        if c < 8 or rng.random() < 0.1:
+            # (G1) integer-valued data handed over as int64 / int32 / float32 / lists; (G4) operator and source scaled together
+            svariant = ["int", "int32", "f32-rhs", "list-p", "scale-1e-12", "scale-1e9", "0d-scalar-n1", "int"][c % 8] if c < 8 else rng.choice(["int", "int32", "f32-rhs", "list-p", "scale-1e-12", "scale-1e9"])
+            flavour = "dtype-" + svariant
+            if svariant == "0d-scalar-n1":
+                n = 1
+            npar = n
+            F = {"n": n, "A0": -laplace(n) + np.diag([float(rng.randint(0, 2)) for _ in range(n)]), "b0": np.array([float(rng.randint(-3, 3)) for _ in range(n)]), "B": np.eye(n)}
+            if svariant.startswith("scale"):
+                sc = 1e-12 if svariant == "scale-1e-12" else 1e9
+                F = {"n": n, "A0": F["A0"] * sc, "b0": F["b0"] * sc, "B": F["B"] * sc}
+            gen_p = lambda: np.array([float(rng.randint(-3, 3)) for _ in range(npar)])
+            skind = rng.choice(["default", "plain", "t2"])
         ops = []
         hist = rng.choice(["a s", "a s", "s a s", "a a s", "a s a s s", "s"])
         for o in hist.split():
             ops.append(("a", gen_p()) if o == "a" else ("s", None))
-        if c % 11 == 10:   # singular operator: the solver must raise, not return garbage
+        if c % 11 == 10 and svariant is None:   # singular operator: the solver must raise, not return garbage
             F["A0"] = np.zeros((n, n)); F["D"] = None; F["E"] = None
-        cases.append(dict(n=n, F=F, ops=ops, skind=skind, flavour=flavour, npar=npar))
+        cases.append(dict(n=n, F=F, ops=ops, skind=skind, flavour=flavour, npar=npar, svariant=svariant))
         _, _, dk = make_solver(skind)
         optok = "|".join("s" if o == "s" else "a:" + qv(p) for o, p in ops)
         lines.append(f"steady {n} {dk} {fam_tokens(F)} {npar} {optok}")
@@ -507,7 +616,26 @@ def check_steady_solve(ctx, cuqi, rng, ncases, bump):
         bump("solver", skind)
         key = f"SteadyStateLinearPDE.solve:{cs['flavour']}:{skind}"
         solver, kwargs, _ = make_solver(skind)
-        form = lambda par, F=F: fam_eval(F, par, 0.0)[:2]
+        sv = cs.get("svariant")
+
+        def form(par, F=F, sv=sv):
+            A, b, _ = fam_eval(F, par, 0.0)
+            if sv == "int":
+                return A.astype(np.int64), b.astype(np.int64)
+            if sv == "int32":
+                return A.astype(np.int32), b.astype(np.int32)
+            if sv == "f32-rhs":
+                return A, b.astype(np.float32)
+            return A, b
+
+        def as_passed(par, sv=sv):
+            if sv in ("int", "int32"):
+                return par.astype(np.int64 if sv == "int" else np.int32)
+            if sv == "f32-rhs":
+                return par.astype(np.float32)
+            if sv == "list-p":
+                return [int(x) for x in par]
+            return par.copy()
         with quiet():
             pde = SteadyStateLinearPDE(form, linalg_solve=solver, linalg_solve_kwargs=kwargs)
         mouts = out.split("|")
@@ -515,8 +643,10 @@ def check_steady_solve(ctx, cuqi, rng, ncases, bump):
         cur = None
         for o, par in ops:
             if o == "a":
+                par_in = as_passed(par)
+                before = snap(par_in)
                 with quiet():
-                    pde.assemble(par)
+                    pde.assemble(par_in)
                 cur = par
                 continue
             mo = mouts[k]; k += 1
@@ -526,6 +656,8 @@ def check_steady_solve(ctx, cuqi, rng, ncases, bump):
                     u, info = pde.solve()
             except Exception as e:  # noqa
                 impl_err = errname(e)
+            if cur is not None and snap(par_in) != before:
+                ctx.fail(key + ":caller-array-modified", desc, "parameter passed by the caller unchanged", "modified in place", "assemble/solve modifies the caller's parameter")
             if impl_err:
                 bump("errors", "steady:" + impl_err)
             oracle_bad = False
@@ -536,7 +668,8 @@ def check_steady_solve(ctx, cuqi, rng, ncases, bump):
                 else:
                     A, b, _ = fam_eval(F, cur, 0.0)
                     uu = np.asarray(u, dtype=float)
-                    res = np.abs(A @ uu - b).max() / (1.0 + np.abs(b).max() + np.abs(A).sum(axis=1).max() * np.abs(uu).max()) if uu.shape == (n,) else float("inf")
+                    den = np.abs(b).max() + np.abs(A).sum(axis=1).max() * np.abs(uu).max() if uu.shape == (n,) else 1.0      # relative: no absolute floor
+                    res = np.abs(A @ uu - b).max() / (den if den > 0 else 1.0) if uu.shape == (n,) else float("inf")
                     if not res <= TOL:
                         oracle_bad = True
                         ctx.fail(key, desc, f"A(p) u = b(p) for the parameter assembled last (scaled residual <= {TOL})", f"residual {res:.3e} u={short(u)}",
@@ -570,14 +703,21 @@ def check_grids(ctx, cuqi, rng, ncases):
     from cuqi.pde import SteadyStateLinearPDE, TimeDependentLinearPDE
     pool = [None, np.array([0.0, 1.0, 2.0]), np.array([0.0, 1.0, 2.0]), np.array([0.0, 1.0, 2.5]), np.array([0.0, 1.0]),
             np.array([0.5, 1.5]), np.array([0.0, 0.5, 1.0, 1.5])]
+    ntol0 = len(pool)
     for kind in TOL_GRIDS:     # pairs a tolerance-based comparison would call equal
         g, g2, _, _, _ = tolerance_pair(rng, 3, kind)
         pool += [g, g2, g.copy()]
+    nint0 = len(pool)
+    for base in (np.array([0.0, 1.0, 2.0, 3.0]), np.array([0.0, 0.5, 1.0, 1.5, 2.0]), np.arange(6, dtype=float)):
+        pool += [base, interior_shift(rng, base)[0]]        # same length, same end nodes, interior node(s) moved
     cases, lines = [], []
     for c in range(ncases):
         a, b = rng.choice(pool), rng.choice(pool)
         if c < 2 * len(TOL_GRIDS):
             a, b = pool[7 + 3 * (c // 2)], pool[7 + 3 * (c // 2) + 1 + (c % 2)]     # shifted copy / exact copy
+        elif c < 2 * len(TOL_GRIDS) + 6:
+            j = (c - 2 * len(TOL_GRIDS)) // 2
+            a, b = (pool[nint0 + 2 * j], pool[nint0 + 2 * j + 1]) if c % 2 == 0 else (pool[nint0 + 2 * j + 1], pool[nint0 + 2 * j])
         ops = [("init", a, b)]
         for _ in range(rng.randint(0, 4)):
             ops.append((rng.choice(["sol", "obs"]), rng.choice(pool), None))
@@ -673,8 +813,21 @@ def unsorted_obs_grid(rng, gs, kind=None):
     return np.array(pts, dtype=float), kind
 
 
+def interior_shift(rng, gs):
+    """equal length, same first and last node (and most nodes), one or two INTERIOR nodes moved by a fraction of a cell"""
+    N = len(gs)
+    g2 = np.array(gs, dtype=float).copy()
+    for j in rng.sample(range(1, N - 1), 1 if N < 5 or rng.random() < 0.6 else 2):
+        frac = rng.choice([0.5, 0.25, -0.25, 0.125])
+        g2[j] = gs[j] + frac * ((gs[j + 1] - gs[j]) if frac > 0 else (gs[j] - gs[j - 1]))
+    assert g2[0] == gs[0] and g2[-1] == gs[-1] and np.any(g2 != gs) and np.all(np.diff(g2) > 0)
+    return g2, "interior-shift"
+
+
 def gen_obs_grid(rng, gs, allow_none=True):
     """(grid_obs argument, class label)"""
+    if len(gs) >= 4 and rng.random() < 0.07:
+        return interior_shift(rng, gs)
     if len(gs) >= 3 and rng.random() < 0.22:
         return unsorted_obs_grid(rng, gs)
     r = rng.random()
@@ -807,6 +960,13 @@ def check_observe_time(ctx, cuqi, rng, ncases, bump):
                 assert np.allclose(ts[-1:], [tnear]) and tnear != ts[-1]
                 go, gclass = (None, "none") if rng.random() < 0.5 else (gs.copy(), "equal-copy")
                 tobs, ttok, tclass = np.array([tnear]), "v:" + qv([tnear]), "near-final-" + nm
+        c1 = 3 + 2 * len(TOL_GRIDS) + 4
+        if c1 <= c < c1 + 3:       # always present: same length and end nodes, interior node(s) moved; the final time; identity map
+            N = max(N, 5); nt = max(nt, 4)
+            gs = np.cumsum([0.0] + [rng.choice([0.5, 1.0]) for _ in range(N - 1)]); ts = gen_times(rng, nt, "nonuniform")
+            go, gclass = interior_shift(rng, gs)
+            grid_sol_none = False
+            tobs, ttok, tclass = "final", "str:final", "final"
         c0 = 3 + 2 * len(TOL_GRIDS)
         if c0 <= c < c0 + 4 and N >= 4:      # always present: observation nodes as a list (sorted repeats are accepted by the spline, other orders refused)
             go, gclass = unsorted_obs_grid(rng, gs, ["subset-repeats-sorted", "subset-repeats-sorted", "subset-decreasing", "subset-shuffled"][c - c0])
@@ -818,7 +978,18 @@ def check_observe_time(ctx, cuqi, rng, ncases, bump):
             # an array with a zero-length time axis has no faithful list representation on the interpolation branch
             tobs, ttok, tclass = np.array([float(ts[-1])]), "v:" + qv([float(ts[-1])]), "explicit-final"
         ndim = 3 if (rng.random() < 0.08 and not gclass.startswith("tolerance") and not tclass.startswith("near-final")) else 2
+        odt = rng.choice(["int-U", "f32-U", "int-grids"]) if rng.random() < 0.12 else None
+        if odt == "int-grids" and (gclass.startswith("tolerance") or tclass.startswith("near-final") or grid_sol_none):
+            odt = "int-U"
+        if odt == "int-grids":      # integer-valued nodes and times handed over as integer arrays
+            gs = np.arange(N, dtype=float) + float(rng.randint(-2, 2)); ts = np.arange(nt, dtype=float)
+            go, gclass = gen_obs_grid(rng, gs) if N >= 3 else (None, "none")
+            tobs, ttok, tclass = gen_tobs(rng, ts)
+            while tclass.startswith("all-final-len0"):
+                tobs, ttok, tclass = gen_tobs(rng, ts)
         U = dym(rng, N, nt, -4, 4, 4)
+        if odt in ("int-U", "f32-U"):
+            U = np.round(U)
         if ndim == 3:
             U3 = np.stack([U, U + 1.0], axis=0)
         else:
@@ -826,7 +997,7 @@ def check_observe_time(ctx, cuqi, rng, ncases, bump):
         no = N if go is None else len(go)
         omkind = rng.choice(OM_KINDS) if ndim == 2 else rng.choice(["id", "sq", "sc"])
         cases.append(dict(N=N, nt=nt, gs=gs, ts=ts, go=go, gclass=gclass, tobs=tobs, ttok=ttok, tclass=tclass, ndim=ndim, U=U, U3=U3,
-                          omkind=omkind, grid_sol_none=grid_sol_none, no=no))
+                          omkind=omkind, grid_sol_none=grid_sol_none, no=no, odt=odt))
     # first pass: implementation + scipy directly (W), then one driver batch
     for cs in cases:
         gs = None if cs["grid_sol_none"] else cs["gs"]
@@ -866,18 +1037,30 @@ def check_observe_time(ctx, cuqi, rng, ncases, bump):
         go, ts, U, om, res = cs["go"], cs["ts"], cs["U"], cs["om"], cs["tres"]
         desc = {"N": cs["N"], "grid_sol": None if gs is None else gs.tolist(), "grid_obs": None if go is None else go.tolist(), "time_steps": ts.tolist(),
                 "time_obs": cs["tobs"] if isinstance(cs["tobs"], str) or cs["tobs"] is None else np.asarray(cs["tobs"]).tolist(),
-                "ndim": cs["ndim"], "obs_map": cs["omtok"], "U": U.tolist()}
+                "ndim": cs["ndim"], "obs_map": cs["omtok"], "U": U.tolist(), "dtype_variant": cs.get("odt")}
         bump("tobs_class", cs["tclass"]); bump("gobs_class", cs["gclass"] + (":grid_sol=None" if gs is None else "")); bump("om", cs["omkind"])
         ctx.case("observe-time", desc)
         impl_err, got = None, None
         sol = cs["U3"] if cs["ndim"] == 3 else U
+        odt = cs.get("odt")
+        sol_in = sol.astype(np.int64) if odt == "int-U" else sol.astype(np.float32) if odt == "f32-U" else sol.copy()
+        gs_in, go_in, ts_in, tobs_in = gs, go, ts, cs["tobs"]
+        if odt == "int-grids":
+            gs_in = gs.astype(np.int64); ts_in = ts.astype(np.int32)
+            go_in = go.astype(np.int64) if go is not None and np.all(go == np.round(go)) else go
+        gs_in = None if gs_in is None else gs_in.copy(); go_in = None if go_in is None else go_in.copy(); ts_in = ts_in.copy()
+        tobs_in = tobs_in.copy() if isinstance(tobs_in, np.ndarray) else tobs_in
+        before = snap(sol_in, gs_in, go_in, ts_in, tobs_in)
         try:
             with quiet():
-                pde = TimeDependentLinearPDE(lambda p, t: None, ts, time_obs=cs["tobs"], grid_sol=gs, grid_obs=go, observation_map=om)
-                got = pde.observe(sol)
-            got = np.asarray(got, dtype=float)
+                pde = TimeDependentLinearPDE(lambda p, t: None, ts_in, time_obs=tobs_in, grid_sol=gs_in, grid_obs=go_in, observation_map=om)
+                got = pde.observe(sol_in)
+            got = np.array(got, dtype=float)
         except Exception as e:  # noqa
             impl_err = type(e).__name__
+        if snap(sol_in, gs_in, go_in, ts_in, tobs_in) != before:
+            ctx.fail("TimeDependentLinearPDE.observe:caller-array-modified", desc, "solution, grids and times passed by the caller unchanged", "modified in place",
+                     "observe modifies an array owned by the caller")
         if impl_err:
             bump("errors", "observe-time:" + impl_err)
         # classify for the key
@@ -960,7 +1143,16 @@ def check_observe_steady(ctx, cuqi, rng, ncases, bump):
             N = max(N, 4)
             gs = np.arange(N, dtype=float) * 0.5
             go, gclass = unsorted_obs_grid(rng, gs, UNSORTED_KINDS[c - len(TOL_GRIDS)])
+        k0 = len(TOL_GRIDS) + len(UNSORTED_KINDS)
+        if k0 <= c < k0 + 3:       # always present: same length and end nodes, interior node(s) moved
+            N = max(N, 5)
+            gs = np.cumsum([0.0] + [rng.choice([0.5, 1.0]) for _ in range(N - 1)])
+            go, gclass = interior_shift(rng, gs)
+            tolcase = True
         u = dyv(rng, N, -4, 4, 4)
+        sdt = rng.choice(["int-u", "f32-u", "int-grid", "list-u"]) if rng.random() < 0.12 else None
+        if sdt:
+            u = np.round(u) + 9.0 * np.arange(N)      # integer-valued and distinct
         if len(set(u.tolist())) < N:
             u = u + 0.125 * np.arange(N)          # distinct nodal values: a permuted output is visible
         gops = [("init", gs, go)]
@@ -979,7 +1171,7 @@ def check_observe_steady(ctx, cuqi, rng, ncases, bump):
             Wtok = qv(W)
         except Exception as e:  # noqa
             W, Wtok = None, "err"
-        cases.append(dict(N=N, gs=gs, go=go, gops=gops, go_final=go_final, u=u, om=om, omtok=omtok, omkind=omkind, W=W, gclass=gclass, equal_now=equal_now))
+        cases.append(dict(N=N, gs=gs, go=go, gops=gops, go_final=go_final, u=u, om=om, omtok=omtok, omkind=omkind, W=W, gclass=gclass, equal_now=equal_now, sdt=sdt))
         gtok = "|".join([f"init:{grid_tok(gs)}:{grid_tok(go)}"] + [f"{o}:{grid_tok(v)}" for o, v, _ in gops[1:]])
         lines.append(f"obss {gtok} {qv(u)} {Wtok} {omtok}")
     outs = ctx.lean.drive(lines)
@@ -993,14 +1185,22 @@ def check_observe_steady(ctx, cuqi, rng, ncases, bump):
         bump("obs_branch", "steady:" + br)
         key = f"SteadyStateLinearPDE.observe:{br}:{cs['gclass']}"
         impl_err, got = None, None
+        sdt = cs.get("sdt")
+        u_in = u.astype(np.int64) if sdt == "int-u" else u.astype(np.float32) if sdt == "f32-u" else [float(x) for x in u] if (sdt == "list-u" and om is None and cs["equal_now"]) else u.copy()
+        gs_in = gs.astype(np.int64) if (sdt == "int-grid" and np.all(gs == np.round(gs))) else gs.copy()
+        go_in = None if go is None else go.copy()
+        before = snap(u_in, gs_in, go_in)
         try:
             with quiet():
-                pde = SteadyStateLinearPDE(lambda p: None, grid_sol=gs, grid_obs=go, observation_map=om)
+                pde = SteadyStateLinearPDE(lambda p: None, grid_sol=gs_in, grid_obs=go_in, observation_map=om)
                 for o, v, _ in cs["gops"][1:]:
                     pde.grid_obs = v
-                got = np.asarray(pde.observe(u), dtype=float)
+                got = np.array(pde.observe(u_in), dtype=float)
         except Exception as e:  # noqa
             impl_err = type(e).__name__
+        if snap(u_in, gs_in, go_in) != before:
+            ctx.fail("SteadyStateLinearPDE.observe:caller-array-modified", desc, "solution and grids passed by the caller unchanged", "modified in place",
+                     "observe modifies an array owned by the caller")
         if impl_err:
             bump("errors", "observe-steady:" + impl_err)
         oracle_bad = False
@@ -1075,16 +1275,35 @@ def check_pipeline(ctx, cuqi, rng, ncases, bump):
             tobs, ttok, tclass = gen_tobs(rng, ts)
             while tclass in ("bad-string", "none") or tclass.startswith("all-final-len"):
                 tobs, ttok, tclass = gen_tobs(rng, ts)
+            if c < 14 or rng.random() < 0.25:     # (G4) the same recurrence on a re-scaled time axis (nanoseconds ... weeks)
+                sigma = SIGMAS[c % len(SIGMAS)] if c < 14 else rng.choice(SIGMAS)
+                F, ts = scale_time(F, ts, sigma)
+                if isinstance(tobs, np.ndarray):
+                    tobs = tobs * sigma; ttok = "v:" + qv(tobs)
+                flavour = flavour + ":scaled"
             cs = dict(kind="time", F=F, x=x, gs=gs, go=go, go_eff=go_eff, solver=solver, kwargs=kwargs, dk=dk, om=om, omtok=omtok, N=N, mapped=mapped,
                       flavour=flavour, gclass=gclass, method=method, ts=ts, tobs=tobs, ttok=ttok, tclass=tclass, skind=skind, omkind=omkind, npar=npar)
+        # (G1) the parameter handed to PDEModel.forward as int64 / float32 / python list / used itself as initial condition
+        xv = None
+        if 14 <= c < 26 or rng.random() < 0.15:
+            xv = ["int-x", "f32-x", "list-x", "int-ic-alias"][c % 4] if c < 26 else rng.choice(["int-x", "f32-x", "list-x", "int-ic-alias"])
+            cs["x"] = np.ceil(np.abs(cs["x"])) + 1.0 if cs["flavour"].startswith("poisson") else np.round(cs["x"]) + 1.0
+            if xv == "list-x":
+                cs["mapped"] = False
+            if xv == "int-ic-alias" and not (cs["kind"] == "time" and cs["flavour"].startswith("heat-ic") and not cs["mapped"]):
+                xv = "int-x"
+        cs["xv"] = xv
         cases.append(cs)
     # implementation first (W is scipy called directly on the implementation's own solution)
     for cs in cases:
         F, x, gs, go = cs["F"], cs["x"], cs["gs"], cs["go"]
         fmap = (lambda v: 2.0 * v + 0.5) if cs["mapped"] else None
-        xin = x
+        xv = cs.get("xv")
+        xin = x.astype(np.int64) if xv in ("int-x", "int-ic-alias") else x.astype(np.float32) if xv == "f32-x" else [float(v) for v in x] if xv == "list-x" else x.copy()
         xfun = fmap(x) if fmap else x
         cs["xfun"] = xfun
+        tform = (lambda par, t, F=F: fam_eval(F, par, t)[:2] + (par,)) if xv == "int-ic-alias" else (lambda par, t, F=F: fam_eval(F, par, t))
+        before = snap(xin, gs, go, cs.get("ts"), cs.get("tobs"))
         impl_err = None
         try:
             with quiet():
@@ -1092,7 +1311,7 @@ def check_pipeline(ctx, cuqi, rng, ncases, bump):
                     pde = SteadyStateLinearPDE(lambda par, F=F: fam_eval(F, par, 0.0)[:2], grid_sol=gs, grid_obs=go, observation_map=cs["om"],
                                                linalg_solve=cs["solver"], linalg_solve_kwargs=cs["kwargs"])
                 else:
-                    pde = TimeDependentLinearPDE(lambda par, t, F=F: fam_eval(F, par, t), cs["ts"], method=cs["method"], time_obs=cs["tobs"],
+                    pde = TimeDependentLinearPDE(tform, cs["ts"], method=cs["method"], time_obs=cs["tobs"],
                                                  grid_sol=gs, grid_obs=go, observation_map=cs["om"], linalg_solve=cs["solver"], linalg_solve_kwargs=cs["kwargs"])
                 dom = Continuous1D(cs["npar"])
                 if fmap:
@@ -1100,7 +1319,8 @@ def check_pipeline(ctx, cuqi, rng, ncases, bump):
                 # range geometry: the declared size is irrelevant to _forward_func; fun2par of Continuous1D is the identity
                 model = PDEModel(pde, Continuous1D(len(cs["go_eff"])), dom)
                 y = model.forward(xin)
-                y = np.asarray(y, dtype=float)
+                y = np.array(y, dtype=float)
+                cs["modified"] = snap(xin, gs, go, cs.get("ts"), cs.get("tobs")) != before
                 # manual pipeline on a second, independent object state
                 pde.assemble(xfun)
                 sol, info = pde.solve()
@@ -1109,6 +1329,7 @@ def check_pipeline(ctx, cuqi, rng, ncases, bump):
         except Exception as e:  # noqa
             impl_err = errname(e)
             cs["impl_err_msg"] = repr(e)[:200]
+            bump("errors", "pipeline:" + impl_err)
         cs["impl_err"] = impl_err
         # W from scipy called directly
         Wtok = "-"
@@ -1136,7 +1357,8 @@ def check_pipeline(ctx, cuqi, rng, ncases, bump):
     outs = ctx.lean.drive(lines)
     for cs, out in zip(cases, outs):
         desc = {"kind": cs["kind"], "flavour": cs["flavour"], "N": cs["N"], "x": cs["x"].tolist(), "grid_sol": cs["gs"].tolist(),
-                "grid_obs": None if cs["go"] is None else cs["go"].tolist(), "solver": cs["skind"], "obs_map": cs["omtok"], "mapped_domain": cs["mapped"]}
+                "grid_obs": None if cs["go"] is None else cs["go"].tolist(), "solver": cs["skind"], "obs_map": cs["omtok"], "mapped_domain": cs["mapped"],
+                "parameter_passed_as": cs.get("xv")}
         if cs["kind"] == "time":
             desc.update(method=cs["method"], time_steps=cs["ts"].tolist(), time_obs=cs["tobs"] if isinstance(cs["tobs"], str) else np.asarray(cs["tobs"]).tolist())
         ctx.case("pdemodel-forward-" + cs["kind"], desc)
@@ -1149,6 +1371,9 @@ def check_pipeline(ctx, cuqi, rng, ncases, bump):
             continue
         y, manual = cs["y"], cs["manual"]
         oracle_bad = False
+        if cs.get("modified"):
+            ctx.fail(key + ":caller-array-modified", desc, "parameter, grids and times passed by the caller unchanged", "modified in place",
+                     "PDEModel.forward modifies an array owned by the caller")
         # oracle 1: forward == observe(solve(assemble(par2fun x))[0]) on the implementation
         if not arr_same(manual, y, 1e-12):
             oracle_bad = True
@@ -1496,7 +1721,16 @@ def check_histories(ctx, cuqi, rng, ncases, bump):
                 ctx.fail(key, desc, "output of the pipeline for the current parameter and configuration: " + short(ref), "err:" + herr,
                          "a call on a re-used object raises where a fresh object with the same configuration succeeds")
                 continue
-            y = np.asarray(y, dtype=float)
+            y_obj = y
+            y = np.array(y, dtype=float)
+            # (G3) the caller may do what it likes with the returned array: later results must not depend on it
+            try:
+                if isinstance(y_obj, np.ndarray) and y_obj.flags.writeable:
+                    y_obj += 1000.0
+                if op == "manual" and isinstance(sol_m, np.ndarray):
+                    sol_m += 1000.0
+            except Exception:
+                pass
             if not arr_same(ref, y, 1e-12):
                 ctx.fail(key, desc, "pipeline for the CURRENT parameter/configuration (fresh object): " + short(ref), short(y),
                          "output of a re-used PDE/PDEModel object is not that of the assemble-solve-observe pipeline for the current parameter and configuration")
@@ -1533,10 +1767,10 @@ def check_testproblems(ctx, cuqi, rng, thorough):
     try:
         configs = []
         for dim in ([5, 9] if not thorough else [5, 9, 17, 12]):
-            for obsmap in (None, "sub", "off", "shuf"):
+            for obsmap in (None, "sub", "off", "shuf", "interior"):
                 configs.append(("Poisson1D", dim, obsmap))
         for dim in ([4, 7] if not thorough else [4, 7, 15, 10]):
-            for obsmap in (None, "sub", "off"):
+            for obsmap in (None, "sub", "off", "interior"):
                 configs.append(("Heat1D", dim, obsmap))
         lines, cases = [], []
         for name, dim, obsmap in configs:
@@ -1545,6 +1779,10 @@ def check_testproblems(ctx, cuqi, rng, thorough):
                 gmap = lambda g: g[1::2] if len(g) > 2 else g[:1]
             elif obsmap == "off":
                 gmap = lambda g: (g[:-1] + g[1:]) / 2
+            elif obsmap == "interior":  # same length and end nodes as the solution grid, one interior node moved half a cell
+                def gmap(g):
+                    g2 = np.array(g, dtype=float).copy(); j = len(g2) // 2; g2[j] = (g2[j] + g2[j + 1]) / 2
+                    return g2
             elif obsmap == "shuf":      # nodes in arbitrary order, one repeated, one off-node point in between
                 gmap = lambda g: np.array([g[3], g[0], (g[1] + g[2]) / 2, g[2], g[3]])
             else:
